@@ -440,3 +440,40 @@ pub fn composed_adf(rng: &mut StdRng, id: String, nmin: usize, nmax: usize) -> (
     }
     (AdfCase { id, labels: default_labels(n), asts }, blocks, observers)
 }
+
+/// A framework with several hundred stable / two-valued models: mutual-attack pairs (2 stable models each), "exactly one of three"
+/// triples (3 each) and self-supporting statements (2 two-valued models, 1 stable), interleaved. `shape` = (pairs, triples, selfs).
+pub fn many_models_adf(rng: &mut StdRng, id: String, shape: (usize, usize, usize)) -> (AdfCase, Vec<Vec<usize>>, Vec<usize>) {
+    let (pairs, triples, selfs) = shape;
+    let n = 2 * pairs + 3 * triples + selfs;
+    let mut perm: Vec<usize> = (0..n).collect();
+    for i in 0..n {
+        let j = rng.gen_range(i..n);
+        perm.swap(i, j);
+    }
+    let mut asts: Vec<Ast> = vec![Ast::Top; n];
+    let mut blocks: Vec<Vec<usize>> = Vec::new();
+    let mut at = 0;
+    for _ in 0..pairs {
+        let (a, b) = (perm[at], perm[at + 1]);
+        at += 2;
+        asts[a] = not(Ast::Atom(b));
+        asts[b] = not(Ast::Atom(a));
+        blocks.push(vec![a, b]);
+    }
+    for _ in 0..triples {
+        let (a, b, c) = (perm[at], perm[at + 1], perm[at + 2]);
+        at += 3;
+        asts[a] = and(not(Ast::Atom(b)), not(Ast::Atom(c)));
+        asts[b] = and(not(Ast::Atom(a)), not(Ast::Atom(c)));
+        asts[c] = and(not(Ast::Atom(a)), not(Ast::Atom(b)));
+        blocks.push(vec![a, b, c]);
+    }
+    for _ in 0..selfs {
+        let a = perm[at];
+        at += 1;
+        asts[a] = Ast::Atom(a);
+        blocks.push(vec![a]);
+    }
+    (AdfCase { id, labels: default_labels(n), asts }, blocks, vec![])
+}
